@@ -20,6 +20,7 @@ class TlcResult:
         self.coverage = {}         # action -> [taken, generated]
         self.out = ""
         self.tr = []               # parsed "TR" payloads
+        self.n_tr = 0              # number of "TR" lines printed by TLC
         self.wall = 0.0
         self.cmd = ""
 
@@ -41,7 +42,7 @@ def _unescape(s):
 
 def run(module, cfg=None, timeout=600, workers=16, coverage=False, heap="8g", env=None,
         simulate=None, depth=None, seed=None, deadlock=None, dfs=False, collect_tr=False,
-        extra=None, max_tr=None):
+        extra=None, max_tr=None, sample_tr=None, cwd=None):
     """Run TLC on spec/<module>.tla with spec/<cfg>.cfg."""
     res = TlcResult()
     meta = tempfile.mkdtemp(prefix="tlc-meta-")
@@ -67,7 +68,7 @@ def run(module, cfg=None, timeout=600, workers=16, coverage=False, heap="8g", en
     res.cmd = " ".join(cmd[cmd.index("tlc2.TLC"):])
     t0 = time.time()
     try:
-        p = subprocess.run(cmd, cwd=SPEC, env=e, capture_output=True, text=True, timeout=timeout)
+        p = subprocess.run(cmd, cwd=cwd or SPEC, env=e, capture_output=True, text=True, timeout=timeout)
     except subprocess.TimeoutExpired as ex:
         shutil.rmtree(meta, ignore_errors=True)
         raise ToolFailure("TLC timeout after %ds: %s" % (timeout, res.cmd))
@@ -82,7 +83,10 @@ def run(module, cfg=None, timeout=600, workers=16, coverage=False, heap="8g", en
         if collect_tr:
             m = _TR.match(ln)
             if m:
-                if max_tr is None or len(res.tr) < max_tr:
+                res.n_tr += 1
+                # sample_tr = (k, offset): keep every k-th behaviour (TLC prints in BFS order, a prefix is not representative)
+                if (sample_tr is None or res.n_tr % sample_tr[0] == sample_tr[1] % sample_tr[0]) and \
+                        (max_tr is None or len(res.tr) < max_tr):
                     res.tr.append(json.loads(_unescape(m.group(1))))
                 continue
         keep.append(ln)
